@@ -79,3 +79,11 @@ silent("C65", "shutdown-clears-flag-first",
 silent("C65", "submit-else-form",
        [(_API, "        if self._cfg.blocking:\n            return output\n        return output.result()",
                "        if self._cfg.blocking:\n            return output\n        else:\n            return output.result()")])
+
+# --- R-C65-backend
+_SER = "pennylane/concurrency/executors/native/serial.py"
+fire("C65", "serial-starmap-unpacks-only-tuples",
+     (_SER, "        return list(starmap(fn_p, data))", "        return [fn_p(*entry) if isinstance(entry, tuple) else fn_p(entry) for entry in data]"),
+     "R-C65-backend", "StdLibBackend.starmap")
+silent("C65", "serial-starmap-as-comprehension",
+       [(_SER, "        return list(starmap(fn_p, data))", "        return [fn_p(*entry) for entry in data]")])
